@@ -36,6 +36,8 @@ Fwd   == <<S("RECV", 0, 0), S("INC", 0, 0), S("SEND", 0, 0)>>                   
 Fan2  == <<S("RECV", 0, 0), S("SEND", 0, 0), S("INC", 0, 0), S("SEND", 0, 1)>>     \* o0 = i0, o1 = i0 + 1
 Merge == <<S("RECV", 0, 0), S("SEND", 0, 0), S("RECV", 1, 0), S("SEND", 0, 0)>>    \* o0 = i0, i1 alternating (one register)
 Sum   == <<S("RECV", 0, 0), S("RECV", 1, 1), S("ADD", 0, 1), S("SEND", 0, 0)>>     \* o0 = i0 + i1
+Fan3  == <<S("RECV", 0, 0), S("SEND", 0, 0), S("INC", 0, 0), S("SEND", 0, 1), S("INC", 0, 0), S("SEND", 0, 2)>>   \* o0 = i0, o1 = i0 + 1, o2 = i0 + 2
+Sum3  == <<S("RECV", 0, 0), S("RECV", 1, 1), S("ADD", 0, 1), S("RECV", 2, 1), S("ADD", 0, 1), S("SEND", 0, 0)>>   \* o0 = i0 + i1 + i2
 Pad(n) == [k \in 1 .. n |-> S("NOP", 0, 0)]
 
 \* ---- topologies ---------------------------------------------------------------------------------
@@ -63,11 +65,17 @@ Topos ==
    merge   |-> [progs |-> <<Fwd, Merge>>, nin |-> 2, nout |-> 1,
                 bonds |-> {Bond(XI(0), PO(2, 0)), Bond(XI(1), PO(1, 0)), Bond(PO(1, 0), PO(2, 1)), Bond(PO(2, 0), XI(0))}],
    sum     |-> [progs |-> <<Fwd, Sum>>, nin |-> 2, nout |-> 1,
-                bonds |-> {Bond(XI(0), PO(2, 0)), Bond(XI(1), PO(1, 0)), Bond(PO(1, 0), PO(2, 1)), Bond(PO(2, 0), XI(0))}]]
+                bonds |-> {Bond(XI(0), PO(2, 0)), Bond(XI(1), PO(1, 0)), Bond(PO(1, 0), PO(2, 1)), Bond(PO(2, 0), XI(0))}],
+   \* a processor with one input and three outputs (input and output selectors of different widths)
+   threeout |-> [progs |-> <<Fan3, Fwd>>, nin |-> 1, nout |-> 3,
+                bonds |-> {Bond(XI(0), PO(1, 0)), Bond(PO(1, 0), XI(0)), Bond(PO(1, 1), XI(1)), Bond(PO(1, 2), PO(2, 0)), Bond(PO(2, 0), XI(2))}],
+   \* a processor with three inputs and one output; external input 1 feeds two processors
+   threein |-> [progs |-> <<Fwd, Fwd, Sum3>>, nin |-> 2, nout |-> 1,
+                bonds |-> {Bond(XI(0), PO(3, 0)), Bond(XI(1), PO(1, 0)), Bond(XI(1), PO(2, 0)), Bond(PO(1, 0), PO(3, 1)), Bond(PO(2, 0), PO(3, 2)), Bond(PO(3, 0), XI(0))}]]
 TopoNames == DOMAIN Topos
 
-VARIABLES topo, tview, pads, shared, envmode, pcs, regs, sent, offered, taken, innext, outs, steps
-vars == <<topo, tview, pads, shared, envmode, pcs, regs, sent, offered, taken, innext, outs, steps>>
+VARIABLES topo, tview, pads, shared, envmode, simdelay, pcs, regs, sent, offered, taken, innext, outs, steps
+vars == <<topo, tview, pads, shared, envmode, simdelay, pcs, regs, sent, offered, taken, innext, outs, steps>>
 
 T == Topos[topo]
 Procs == 1 .. Len(T.progs)
@@ -83,13 +91,14 @@ Init ==
   /\ pads \in [1 .. 3 -> 0 .. 2]
   /\ shared \in BOOLEAN                                   \* processors with the same program are instances of one domain
   /\ envmode \in {"prompt", "holds-valid", "slow-ack"}    \* timing of the environment (never visible in the streams)
+  /\ simdelay \in {"none", "inc:6", "nop:3", "add:4"}     \* extra ticks one opcode takes in the simulator (never visible either)
   /\ pcs = [p \in 1 .. 3 |-> 0]
   /\ regs = [p \in 1 .. 3 |-> <<0, 0>>]
   /\ sent = [p \in 1 .. 3 |-> FALSE]     \* the processor's current SEND has made its offer
   /\ offered = {}                 \* sources currently offering a value: set of [src, val]
   /\ taken = {}                   \* pairs <<src, sink>>: sink has taken the value src is offering
   /\ innext = [k \in 0 .. 1 |-> 0] \* how many values each external input has delivered completely
-  /\ outs = [k \in 0 .. 1 |-> <<>>]
+  /\ outs = [k \in 0 .. 2 |-> <<>>]
   /\ steps = 0
 
 Offer(src) == {o \in offered : o.src = src}
@@ -117,7 +126,7 @@ Move(A, E) ==
                          \cup {[src |-> XI(k), val |-> (Base(k) + innext[k]) % Mod] : k \in extOffer}
          /\ taken' = {t \in newTaken : t[1] \notin {o.src : o \in complete}}
          /\ innext' = [k \in 0 .. 1 |-> IF XI(k) \in {o.src : o \in complete} THEN innext[k] + 1 ELSE innext[k]]
-         /\ outs' = [k \in 0 .. 1 |-> IF \E b \in extTakers : b.dst = XI(k)
+         /\ outs' = [k \in 0 .. 2 |-> IF \E b \in extTakers : b.dst = XI(k)
                                      THEN Append(outs[k], ValOf((CHOOSE b \in extTakers : b.dst = XI(k)).src))
                                      ELSE outs[k]]
          /\ regs' = [p \in 1 .. 3 |->
@@ -127,7 +136,7 @@ Move(A, E) ==
                       ELSE regs[p]]
          /\ pcs' = [p \in 1 .. 3 |-> IF p \in receivers \cup done \cup compute THEN pcs[p] + 1 ELSE pcs[p]]
          /\ sent' = [p \in 1 .. 3 |-> IF p \in senders THEN TRUE ELSE IF p \in done THEN FALSE ELSE sent[p]]
-  /\ UNCHANGED <<topo, tview, pads, shared, envmode>>
+  /\ UNCHANGED <<topo, tview, pads, shared, envmode, simdelay>>
 
 \* the round in which everybody who can move moves: the canonical schedule (used to draw behaviours)
 Round == Move(Procs, TRUE)
@@ -136,7 +145,9 @@ AnyMove == \E A \in SUBSET Procs : \E E \in BOOLEAN : Move(A, E)
 
 Next == Round
 Spec == Init /\ [][Next]_vars
-AnySpec == Init /\ [][AnyMove]_vars
+\* (the choices that only the implementation can see are fixed here: they do not touch the model)
+AnyInit == Init /\ shared = FALSE /\ envmode = "prompt" /\ simdelay = "none"
+AnySpec == AnyInit /\ [][AnyMove]_vars
 
 \* the streams in closed form: what the network computes, schedule or no schedule
 Exp(t, k, n) ==
@@ -148,12 +159,14 @@ Exp(t, k, n) ==
     [] t = "twoout" -> Base(0) + 2 * k + (n - 1)
     [] t = "merge" -> IF n % 2 = 1 THEN Base(0) + (n - 1) \div 2 ELSE Base(1) + 1 + (n - 2) \div 2
     [] t = "sum" -> Base(0) + Base(1) + 1 + 2 * (n - 1)
+    [] t = "threeout" -> Base(0) + (IF k = 2 THEN 3 ELSE k) + (n - 1)
+    [] t = "threein" -> Base(0) + 2 * (Base(1) + 1) + 3 * (n - 1)
 \* Kahn determinacy: under EVERY schedule every external output delivers a prefix of its stream
-Streams == \A k \in 0 .. 1 : \A n \in 1 .. Len(outs[k]) : outs[k][n] = Exp(topo, k, n) % Mod
+Streams == \A k \in 0 .. 2 : \A n \in 1 .. Len(outs[k]) : outs[k][n] = Exp(topo, k, n) % Mod
 
 \* every value taken on an external output was offered by the source bonded to it, and a source
 \* never has two offers at a time
 OneOffer == \A a, b \in offered : a.src = b.src => a = b
 ExportTopo == tview = Topos[topo]
-TypeOK == OneOffer /\ \A k \in 0 .. 1 : Len(outs[k]) <= steps
+TypeOK == OneOffer /\ \A k \in 0 .. 2 : Len(outs[k]) <= steps
 =============================================================================
